@@ -26,7 +26,7 @@ UNIVERSES = {
                 streams=['s1', 's2', 's3', 's4', 's5']),
     'big': dict(units={'A': (2, 1, True, True), 'B': (1, 1, False, True), 'C': (1, 2, True, False),
                        'D': (1, 1, True, True), 'E': (2, 2, False, False), 'F': (3, 2, True, True)},
-                streams=['s%d' % i for i in range(1, 11)]),
+                streams=['s%d' % i for i in range(1, 11)], same_ids=True),
 }
 
 _classes = {}
@@ -69,7 +69,8 @@ class World:
         self.names = {id(v): k for k, v in self.streams.items()}
         self.units = {}
         for n, spec in universe['units'].items():
-            self.units[n] = unit_class(*spec)('.' + n, ins=None, outs=None)
+            # (universes may give every unit the SAME unregistered ID: units are told apart by identity, never by name)
+            self.units[n] = unit_class(*spec)('.U' if universe.get('same_ids') else '.' + n, ins=None, outs=None)
 
     # ---- abstract state -------------------------------------------------
     def _name(self, obj):
@@ -190,7 +191,9 @@ class World:
         elif op == 'insert':
             self._port(a['side'], a['u']).insert(a['i'], S[a['x']])
         elif op == 'extend':
-            self._port(a['side'], a['u']).extend([S[x] for x in a['xs']])
+            xs = [S[x] for x in a['xs']]
+            # any iterable is accepted: a list, or (every other call, by the argument itself) a one-shot generator
+            self._port(a['side'], a['u']).extend(xs if (len(a['xs']) + len(a['u'])) % 2 and a['side'] == 'in' else (x for x in xs))
         elif op == 'pop':
             return self._name(self._port(a['side'], a['u']).pop(a['i'] - 1))
         elif op == 'remove':
